@@ -13,6 +13,7 @@ package vsys
 import (
 	"fmt"
 	"sort"
+	"strconv"
 
 	"golang.org/x/sys/unix"
 
@@ -110,6 +111,10 @@ type Fault struct {
 
 // Kernel is the simulated kernel of one run.
 type Kernel struct {
+	spin     map[string]*spinRec
+	SpinMax  int // longest busy-retry streak seen (see use)
+	SpinDesc string
+
 	fds      map[int]*fdEntry
 	hist     map[int]*fdHistory
 	fdBase   int
@@ -357,6 +362,31 @@ func (k *Kernel) use(call string, fd int, res string) {
 	}
 	k.Uses[fd] = append(k.Uses[fd], u)
 	k.trace("sys %s %s(%d) -> %s", u.Task, call, fd, res)
+	// busy-retry detector: the same task repeating the same call on the same
+	// descriptor with the same EAGAIN answer, with no other system call of its
+	// own in between (in particular without going back to epoll_wait)
+	if k.spin == nil {
+		k.spin = map[string]*spinRec{}
+	}
+	sr := k.spin[u.Task]
+	if sr == nil {
+		sr = &spinRec{}
+		k.spin[u.Task] = sr
+	}
+	key := call + "|" + strconv.Itoa(fd) + "|" + res
+	if res == "EAGAIN" && sr.key == key {
+		sr.n++
+		if sr.n > k.SpinMax {
+			k.SpinMax, k.SpinDesc = sr.n, fmt.Sprintf("task %s: %s(%d) -> EAGAIN repeated %d times in a row without any other system call of that task", u.Task, call, fd, sr.n)
+		}
+	} else {
+		sr.key, sr.n = key, 1
+	}
+}
+
+type spinRec struct {
+	key string
+	n   int
 }
 
 // fault consults the injected-fault list for one call of a site.
